@@ -1,4 +1,5 @@
 import QV.Model.Arith
+import QV.Gen.Tables
 /-!
 # The typed expression / statement translator of `qlasskit/ast2logic`
 
@@ -131,7 +132,7 @@ inductive PExp where
   | not (e : PExp)
   | inv (e : PExp)
   | ite (c t e : PExp)
-  | cmp (op : String) (l r : PExp)
+  | cmp (op : String) (l r : PExp)            -- op = name of the `ast` comparator class
   | bin (op : String) (l r : PExp)
   | tuple (es : List PExp)
   | unsupported (what : String)
@@ -172,7 +173,7 @@ def Env.find (env : Env) (n : String) : Option Binding := List.find? (fun b => b
 
 /-- `const_to_qtype` for ints: the first of Qint2/4/6/8/12/16 with `v < 2**w`; `QintImp.const` -/
 def constToQtype (v : Int) : Except String (Ty × List BExp) :=
-  match [2, 4, 6, 8, 12, 16].find? (fun w => v < ((2 : Int) ^ w)) with
+  match (Gen.constQintCandidates.map (·.2)).find? (fun w => v < ((2 : Int) ^ w)) with
   | some w => pure (.qint w, qintConst w (v % ((2 : Int) ^ w)).toNat)
   | none => throw "Constant value is too big"
 
@@ -180,11 +181,12 @@ def constToQtype (v : Int) : Except String (Ty × List BExp) :=
 def qcharConst (code : Nat) : List BExp := fill 8 (natBitsLE 32 code)
 
 /-- walk the type along a subscript path (the loop over `sn.split(".")[1:]`) -/
-def walkTy : Ty → List Int → Except String Ty
+def walkTy (neg : Bool) : Ty → List Int → Except String Ty
   | t, [] => pure t
   | t, i :: is =>
+    if i < 0 && !neg then throw "OutOfBound: negative index" else
     match t.size? with
-    | some n => if i < (n : Int) then walkTy .bool is else throw "OutOfBound"
+    | some n => if i < (n : Int) then walkTy neg .bool is else throw "OutOfBound"
     | none =>
       match t with
       | .tuple ts =>
@@ -193,7 +195,7 @@ def walkTy : Ty → List Int → Except String Ty
           let k := if i < 0 then len + i else i
           if k < 0 then throw "IndexError" else
           match ts[k.toNat]? with
-          | some t' => walkTy t' is
+          | some t' => walkTy neg t' is
           | none => throw "IndexError"
         else throw "OutOfBound"
       | _ => if i < 0 then throw "IndexError" else throw "OutOfBound"
@@ -272,7 +274,8 @@ def tr (q : Quirks) (env : Env) : PExp → M (Ty × Val)
     match env.find n with
     | none => throw s!"Unbound {n}"
     | some b => do
-      let t ← (walkTy b.ty path : Except String _)
+      if path.any (· < 0) then event "negIndex"
+      let t ← (walkTy q.negIndexAccepted b.ty path : Except String _)
       let sn := pathName n path
       match t.size? with
       | some w => pure (t, .list ((List.range w).map fun i => .atom (.sym s!"{sn}.{i}")))
@@ -322,7 +325,11 @@ def tr (q : Quirks) (env : Env) : PExp → M (Ty × Val)
   | .tuple es => do
     let xs ← trList q env es
     pure (.tuple (xs.map (·.1)), .list (xs.map (·.2)))
-  | .cmp op l r => do
+  | .cmp astOp l r => do
+    -- `for ast_comp, comp_name in comparators: if isinstance(expr.ops[0], ast_comp)`
+    let op := match Gen.comparators.find? (·.1 == astOp) with
+      | some (_, name) => name
+      | none => "unhandled"
     let (lt, lv) ← tr q env l
     let (rt, rv) ← tr q env r
     match lt, rt with
@@ -336,9 +343,9 @@ def tr (q : Quirks) (env : Env) : PExp → M (Ty × Val)
     | .tuple ls, .tuple rs =>
       if ls.isEmpty || rs.isEmpty then throw "UnboundLocalError op_type" else
       if !(Ty.beqList ls rs) then throw "TypeError tuple compare" else
-      let neq ← match op with
-        | "eq" => pure false
-        | "neq" => pure true
+      let neq ← match astOp with   -- `isinstance(expr.ops[0], ast.Eq / ast.NotEq)`, not the table
+        | "Eq" => pure false
+        | "NotEq" => pure true
         | _ => throw "OperationNotSupported"
       match lv, rv with
       | .list a, .list b => do
@@ -446,6 +453,16 @@ def Env.bind (env : Env) (b : Binding) : Env :=
 def trStmt (q : Quirks) (ret : Ty) (env : Env) : Stmt → M (List (String × BExp) × Env)
   | .assign target value => do
     let (t, v) ← tr q env value
+    let mut v := v
+    match t with
+    | .tuple _ =>
+      if (v.decompose target).map (·.1) != t.names target then
+        event "tupleAssignFlat"
+        if !q.tupleAssignFlat then
+          match nestAs t v.flatten with
+          | some (v', _) => v := v'
+          | none => throw "IndexError: pop from empty list"
+    | _ => pure ()
     let res := v.decompose target
     pure (res, env.bind ⟨target, t, res.map (·.1)⟩)
   | .ret value => do
@@ -479,7 +496,11 @@ def trStmt (q : Quirks) (ret : Ty) (env : Env) : Stmt → M (List (String × BEx
   | .unsupported w => throw s!"unsupported: {w}"
 
 def trBody (q : Quirks) (ret : Ty) : Env → List Stmt → M (List (String × BExp))
-  | _, [] => pure []
+  | env, [] => do
+    if (env.find "_ret").isNone then
+      event "noReturn"
+      if !q.noReturnAccepted then throw "no return statement"
+    pure []
   | env, s :: ss => do
     let (defs, env') ← trStmt q ret env s
     let rest ← trBody q ret env' ss
